@@ -386,6 +386,40 @@ def facts_before(f, var, line):
     return facts
 
 
+def _fresh_copy_unflagged(m, f, test):
+    """`assert X.immutable is False` where X is (a local holding, or an attribute just assigned) the result of store._copy(), and
+    BitStore._copy is still 'return BitStore(<bitarray>)' with the constructor's flag defaulting to False."""
+    if not (isinstance(test, ast.Compare) and len(test.ops) == 1 and isinstance(test.ops[0], ast.Is) and isinstance(test.comparators[0], ast.Constant)
+            and test.comparators[0].value is False and isinstance(test.left, ast.Attribute) and test.left.attr == 'immutable'):
+        return False
+    cp = m.classes.get('BitStore') and m.classes['BitStore'].methods.get('_copy')
+    init = m.classes.get('BitStore') and m.classes['BitStore'].methods.get('__init__')
+    if cp is None or init is None:
+        return False
+    rets = [x for x in own_walk(cp.node) if isinstance(x, ast.Return)]
+    if len(rets) != 1 or not (isinstance(rets[0].value, ast.Call) and ast.unparse(rets[0].value.func) == 'BitStore' and len(rets[0].value.args) == 1
+                              and not rets[0].value.keywords):
+        return False
+    a = init.node.args
+    dflt = dict(zip([x.arg for x in a.args][-len(a.defaults):], a.defaults)) if a.defaults else {}
+    if not (isinstance(dflt.get('immutable'), ast.Constant) and dflt['immutable'].value is False):
+        return False
+    target = ast.unparse(test.left.value)
+    src = [x for x in own_walk(f.node) if isinstance(x, ast.Assign) and len(x.targets) == 1 and ast.unparse(x.targets[0]) == target]
+    if not src:
+        return False
+    for x in src:
+        v = x.value
+        if isinstance(v, ast.Name):
+            vs = [y for y in own_walk(f.node) if isinstance(y, ast.Assign) and len(y.targets) == 1 and ast.unparse(y.targets[0]) == v.id]
+            if len(vs) != 1:
+                return False
+            v = vs[0].value
+        if not (isinstance(v, ast.Call) and isinstance(v.func, ast.Attribute) and v.func.attr == '_copy' and not v.args):
+            return False
+    return True
+
+
 def _merge_chain(t):
     """`a <= b and b <= c` written as the chain `a <= b <= c` (the form the reason table uses); anything else unchanged."""
     if isinstance(t, ast.BoolOp) and isinstance(t.op, ast.And) and len(t.values) == 2 and all(isinstance(v, ast.Compare) and len(v.ops) == 1 for v in t.values):
@@ -480,6 +514,10 @@ def rule_N1(ctx):
             # a generator body runs when it is consumed, not when the (mode-switched) method was called
             r.fail(f.key, f'assert {txt}', 'this assertion about a module option sits in a generator: the option can be changed between the call '
                    'that created the generator and its consumption, and the user then sees AssertionError', loc=f.loc(a))
+            continue
+        if _fresh_copy_unflagged(m, f, a.test):
+            r.ok(f'{f.key}: {txt}', sample={'instance': f.key, 'assert': txt, 'verdict': "holds by construction: the value is the result of the store's "
+                                                 '_copy(), which builds a new store with the default (False) flag'})
             continue
         rk = _rmatch(ctx, N1_REASONS, fk, txt, f)
         if rk is not None:
@@ -661,6 +699,9 @@ def _nonzero_guarded(f, node, div):
                                                                and G.is_zero(c.comparators[0])) for c in conj):
                         return True
                     if in_body and (ast.unparse(t) == dt or (isinstance(t, ast.Compare) and ast.unparse(t.left) == dt and isinstance(t.ops[0], (ast.Gt, ast.NotEq)) and G.is_zero(t.comparators[0]))):
+                        return True
+                    # the division sits in the else branch of a test that is true exactly when the divisor is zero
+                    if not in_body and zero_test(t):
                         return True
                     return scan(s.body if in_body else s.orelse)
             elif isinstance(s, (ast.For, ast.While, ast.With, ast.Try)):
